@@ -1179,3 +1179,19 @@ def _codeapi(ctx, R):
 
 
 RULES.append(("C04.CODEAPI", "the words kind / syllable count / dot count / area count / area mean the fields of the command record: getters and constructors of UnOptCode and OptCode (shared with C01.CODEAPI)", _codeapi))
+
+
+def _raw(ctx, R):
+    from . import p_c08
+    return p_c08.rule_raw(ctx, R)
+
+
+RULES.append(("C04.RAW", "each command reports its own significant source characters: what is appended to the raw text and when (shared with C08.RAW)", _raw))
+
+
+def _file(ctx, R):
+    from . import p_c08
+    return p_c08.rule_file(ctx, R)
+
+
+RULES.append(("C04.FILE", "what the front ends parse is the text of the file, untouched (shared with C08.FILE)", _file))
